@@ -57,7 +57,11 @@ def concreteEnv (tx : Tx) (idx : Nat) : Env :=
       ecdsaCheck body pubkey (Spec.Sighash.legacySighash script tx idx ht).1 }
 
 def mkCtx (tx : Tx) (idx : Nat) : Model.ScriptEval.Ctx :=
-  { env := concreteEnv tx idx, inIdx := idx, nVin := tx.vin.length, nVout := tx.vout.length }
+  -- (c06, audit round 1: `Ctx` now carries RawSignatureHash's outcome instead of an `Env` plus index guards;
+  --  same behaviour as before for an index ≥ 0: the Spec digest, nothing raised; `(mkCtx tx idx).env = concreteEnv tx idx`)
+  { hashes := (concreteEnv tx idx).hashes
+    sigHash := fun script ht => .ok (Spec.Sighash.legacySighash script tx idx ht).1
+    sigVerify := ecdsaCheck }
 
 def parseFlags? (s : String) : Option Flags := do
   let n ← parseNat? s
